@@ -207,7 +207,7 @@ def gen_lineage(rng, T, p, ids, P):
             if rng.random() < 0.5:
                 e = ('score', rng.choice(['Completeness', 'bootstrap', 'TreeCertainty']), rng.choice(SCORE_LITERALS))
             else:
-                e = ('prop', rng.choice(['Note', 'Color', 'Source']), rng.choice(['x', 'y z', '42']))
+                e = ('prop', rng.choice(['Note', 'Color', 'Source']), rng.choice(['x', 'y z', '42', 'A&B', 'x<y>z', "O'Neil", 'say "hi"', 'gr\u00fcn', '']))
             subs.insert(rng.randint(0, len(subs)), ('ann', e))
     return ('grp', written, hid, label, subs)
 
@@ -533,6 +533,10 @@ def rand_xrefs(rng, gid):
         x.append(('geneId', 'G' + gid if rng.random() < 0.8 else 'shared'))
     if rng.random() < 0.2:
         x.append(('transcriptId', 'T' + gid))
+    if x and rng.random() < 0.06:
+        # values that need escaping in XML / are not ASCII
+        k_, v_ = x[0]
+        x[0] = (k_, v_ + rng.choice(['&co', '<1>', "'s", '"q"', '\u00e9']))
     if x and rng.random() < 0.12:
         # two attributes of one <gene> carrying the same value (geneId == protId is common in real files), or a
         # cross-reference equal to the gene's own id
